@@ -7,12 +7,17 @@ C13 — `to_dict`/`from_dict` (and JSON) reproduce the model.
 * table layer: the premise is decided on the tables regenerated from the current `from_dict`/`to_dict`
   (`Gen/SchemaDict.lean`) — `dict_tables_ok`.  The tables of the repaired `from_dict` (fixes/C13-*) have
   no missing pair; on a tree where `from_dict` forgets a key this theorem fails and names the pair.
-* rule text: the condition tree survives `str(condition)` → keyword split → `generate_control` exactly
-  when it is a left-nested AND of left-nested ORs; `(a AND b) OR c` does not.
+* rule text, dictionary path (`Rule.to_dict` writes `str(condition)`, the tree IN ORDER): the condition tree survives
+  `str(condition)` → keyword split → `generate_control` exactly when it is a left-nested AND of left-nested ORs;
+  `(a AND b) OR c` does not (still so on HEAD: e0050eda repaired the INP writer only).
+* rule text, INP path after e0050eda (`flattenCnf`, the AND of OR-groups): EVERY tree is read back as its normal form
+  `ofGroups (cnf c)`, which has the same groups, the same truth value under every valuation, and is written as the same
+  clauses again; the statement about the old in-order writer is kept as `rule_condition_inorder_pinned`.
 -/
 import WntrModel.Model.Schema
 import WntrModel.Model.InpText
 import WntrModel.Gen.SchemaDict
+import WntrModel.Lemmas.InpNorm
 import Mathlib.Data.List.Basic
 
 namespace Wntr.Schema
@@ -292,5 +297,63 @@ example : isShape (Cond.and (.and (.or (.atom 0) (.atom 1)) (.atom 2)) (.or (.or
 theorem parse_idempotent_on_shape (c : Cond α) (hc : isShape c = true) :
     (parse (flatten c .if_)).map (fun c' => flatten c' .if_) = some (flatten c .if_) := by
   rw [rule_condition_roundtrip c hc]; rfl
+
+/-! ### the INP writer after e0050eda: every condition tree -/
+
+open Wntr.InpNorm in
+/-- **`rule_condition_roundtrip_all`**: for EVERY condition tree, what `generate_control` builds from the clauses the
+repaired writer produces is the normal form of the condition (its AND of OR-groups as a left-nested tree) -/
+theorem rule_condition_roundtrip_all [Inhabited α] (c : Cond α) : parse (flattenCnf c) = some (ofGroups (cnf c)) := by
+  have h := flatten_ofGroups (cnf c) (cnf_ne_nil c).1 (cnf_ne_nil c).2
+  unfold flattenCnf
+  rw [← h]
+  apply rule_condition_roundtrip
+  -- the canonical tree is a left-nested AND of left-nested ORs
+  have hor : ∀ (rest : List α) (t : Cond α), isDisj t = true → isDisj (rest.foldl (fun t x => Cond.or t (.atom x)) t) = true := by
+    intro rest
+    induction rest with
+    | nil => intro t h; simpa using h
+    | cons x xs ih => intro t h; exact ih _ (by simpa [isDisj] using h)
+  have hgt : ∀ g : List α, isDisj (groupTree g) = true := fun g => hor _ _ rfl
+  have hand : ∀ (gs : List (List α)) (t : Cond α), isShape t = true → isShape ((gs.map groupTree).foldl .and t) = true := by
+    intro gs
+    induction gs with
+    | nil => intro t h; simpa using h
+    | cons g rest ih => intro t h; exact ih _ (by simp [isShape, h, hgt g])
+  have hshape_of_disj : ∀ t : Cond α, isDisj t = true → isShape t = true := by
+    intro t h
+    cases t with
+    | atom _ => rfl
+    | or _ _ => simpa [isShape] using h
+    | and _ _ => simp [isDisj] at h
+  exact hand _ _ (hshape_of_disj _ (hgt _))
+
+open Wntr.InpNorm in
+/-- the normal form has the same OR-groups … -/
+theorem rule_condition_same_groups [Inhabited α] (c : Cond α) : cnf (ofGroups (cnf c)) = cnf c :=
+  cnf_ofGroups (cnf c) (cnf_ne_nil c).1 (cnf_ne_nil c).2
+
+open Wntr.InpNorm in
+/-- … hence is written as exactly the same clauses again (the text is stable from the first write on) … -/
+theorem rule_condition_text_stable [Inhabited α] (c : Cond α) : flattenCnf (ofGroups (cnf c)) = flattenCnf c := by
+  unfold flattenCnf; rw [rule_condition_same_groups]
+
+open Wntr.InpNorm in
+/-- … and is the SAME condition: equal truth value under every valuation of the premises -/
+theorem rule_condition_same_meaning [Inhabited α] (v : α → Bool) (c : Cond α) : eval v (ofGroups (cnf c)) = eval v c := by
+  rw [eval_ofGroups v (cnf c) (cnf_ne_nil c).1 (cnf_ne_nil c).2, evalGroups_cnf]
+
+/-- a condition that already is a left-nested AND of left-nested ORs is its own normal form: exact round trip -/
+theorem rule_condition_roundtrip_exact [Inhabited α] (c : Cond α) (h : ofGroups (cnf c) = c) : parse (flattenCnf c) = some c := by
+  rw [rule_condition_roundtrip_all, h]
+
+/-- **pinned** — the writer BEFORE e0050eda wrote the tree in order; that statement was false (and is still the behaviour
+of the dictionary path, see `rule_condition_counterexample`) -/
+theorem rule_condition_inorder_pinned : ¬ (∀ c : Cond Nat, parse (flatten c .if_) = some c) := rule_condition_counterexample
+
+/-- non-vacuity: `(a AND b) OR c` is now written as `IF a OR c AND b OR c` and read back as `(a OR c) AND (b OR c)` -/
+example : flattenCnf (Cond.or (.and (.atom 0) (.atom 1)) (.atom 2)) = [(.if_, 0), (.or_, 2), (.and_, 1), (.or_, 2)] ∧
+    parse (flattenCnf (Cond.or (.and (.atom 0) (.atom 1)) (.atom 2))) = some (Cond.and (.or (.atom 0) (.atom 2)) (.or (.atom 1) (.atom 2))) := by
+  constructor <;> decide
 
 end Wntr.InpText
